@@ -12,8 +12,15 @@ use crate::parser::AST;
 
 use super::util::catch;
 
+thread_local! {
+    // One parser per worker thread, reused for every source. FML itself builds a fresh `TopLevelParser` per process; doing that
+    // per *program* inside the orchestrator retains ~130 KB per parse (the generated lexer's regex match caches are not given
+    // back), which ended a 250 000-program batch in the OOM killer. Reuse changes nothing about what is parsed.
+    static PARSER: TopLevelParser = TopLevelParser::new();
+}
+
 pub fn parse(source: &str) -> Result<AST, String> {
-    match catch(|| TopLevelParser::new().parse(source).map_err(|e| format!("{:?}", e))) {
+    match catch(|| PARSER.with(|p| p.parse(source).map_err(|e| format!("{:?}", e)))) {
         Ok(r) => r,
         Err(p) => Err(format!("panic: {}", p)),
     }
